@@ -491,10 +491,9 @@ theorem phiRaw_perm {l d : Nat} {ρ ρi π πi : Nat → Nat} (hρ : PermOn l ρ
 end eig
 
 section norm
-variable {K : Type} [Field K] [LinearOrder K] [IsStrictOrderedRing K]
+variable {K : Type} [Field K] [LinearOrder K]
 open PV.Unity
 
-omit [IsStrictOrderedRing K] in
 /-- `np.argmax(abs(·))` of a permuted vector whose largest magnitude is attained once moves with it -/
 theorem argmaxAbs_permL {l : Nat} (hl : 0 < l) {ρ ρi : Nat → Nat} (hρ : PermOn l ρ ρi)
     (v : List (Plscf.Cx K)) (hv : v.length = l)
